@@ -17,9 +17,10 @@ kthlist2pebbling — one positional `add_subparsers` action.  For such a parser 
            is still open takes ALL remaining tokens (`nargs=PARSER`), its first token must be one of the choices.
            Actions are taken in order; `-h` prints the help and exits (later errors are never seen),
            a failing `type=` conversion (`FileType`) is an error (a later `-h` is never seen).
-  quirk    `_get_values` removes one `'--'` from the argument strings of every action that is not
-           PARSER/REMAINDER; an option written `-o=--`, `-o--` or `--output=--` therefore stores the EMPTY LIST
-           `[]` (no conversion).  Modelled: `ArgV.nil`.
+  quirk    `_get_values` of plain argparse removes one `'--'` from the argument strings of every action that is not
+           PARSER/REMAINDER; an option written `-o=--`, `-o--` or `--output=--` would therefore store the EMPTY LIST
+           `[]` (no conversion).  The parser hands this case to the action as `ArgV.nil`; `CLIParser._get_values`
+           (cnfgen/clitools/cmdline.py, fix 3772171) refuses it — see `act` in Cli/Tools.lean.
 
 The semantic actions (what a flag / a value does to the namespace, which conversions fail) are a parameter
 (`act`), so the file is independent of the file system model.  Import-free.
